@@ -481,7 +481,7 @@ Proof.
   assert (TR : forall y, task_registered s3 y = if y =? k then false else task_registered s y).
   { intros y. apply bool_eq_iff. rewrite task_registered_In, CL3.
     destruct (Z.eqb_spec y k) as [->|N]; [split; [contradiction|discriminate]|].
-    rewrite task_registered_In, CL, !in_app_iff. cbn [In]. intuition. }
+    rewrite task_registered_In, CL, !in_app_iff. cbn [In]. intuition congruence. }
   assert (SK3 : SiTk s3).
   { split; rewrite CL3; [|exact ND]. intros y H. apply S1. apply in_app_or in H. apply in_or_app.
     destruct H; [auto|right; right; assumption]. }
@@ -518,7 +518,8 @@ Proof.
     + cbn [PostT]. split; [|reflexivity].
       apply (J_upd true s _ Jh); try reflexivity; try (apply (j_good _ _ Jh));
         try (solve [left; repeat split; first [reflexivity | intros; apply fkeep_refl]]).
-      * right. intros y Y. rewrite (J_AgTk _ _ Jh y Y). unfold task_registered. cbn [tasks cur set_tasks]. rewrite C. reflexivity.
+      * right. intros y Y. change (a_tk (mst s) y = task_registered (set_tasks s (tasks s) None) y).
+        rewrite (J_AgTk _ _ Jh y Y). unfold task_registered. cbn [tasks cur set_tasks]. rewrite C. reflexivity.
       * right. destruct (J_SiTk _ _ Jh) as [S1 S2]. unfold SiTk, curl in *. cbn [tasks cur set_tasks]. rewrite C in S1, S2. split; assumption.
       * apply (FdI_keep s _ (-1) (j_fd _ _ Jh)); reflexivity.
       * apply (FdX_keep s _ (j_fx _ _ Jh)); try reflexivity; intros; repeat split.
@@ -528,7 +529,8 @@ Proof.
     + cbn [PostT]. split; [|reflexivity].
       apply (J_upd true s _ Jh); try reflexivity; try (apply (j_good _ _ Jh));
         try (solve [left; repeat split; first [reflexivity | intros; apply fkeep_refl]]).
-      * right. intros y Y. rewrite (J_AgTk _ _ Jh y Y). unfold task_registered. cbn [tasks cur set_tasks]. rewrite C. reflexivity.
+      * right. intros y Y. change (a_tk (mst s) y = task_registered (set_tasks s (tasks s) None) y).
+        rewrite (J_AgTk _ _ Jh y Y). unfold task_registered. cbn [tasks cur set_tasks]. rewrite C. reflexivity.
       * right. destruct (J_SiTk _ _ Jh) as [S1 S2]. unfold SiTk, curl in *. cbn [tasks cur set_tasks]. rewrite C in S1, S2. split; assumption.
       * apply (FdI_keep s _ (-1) (j_fd _ _ Jh)); reflexivity.
       * apply (FdX_keep s _ (j_fx _ _ Jh)); try reflexivity; intros; repeat split.
@@ -552,7 +554,8 @@ Proof.
   assert (J1 : J true s1).
   { apply (J_upd true s s1 Jh); try reflexivity; try (apply (j_good _ _ Jh));
       try (solve [left; repeat split; first [reflexivity | intros; apply fkeep_refl]]).
-    - right. intros y Y. rewrite (J_AgTk _ _ Jh y Y). unfold task_registered. cbn [s1 tasks cur set_tasks set_epoch].
+    - right. intros y Y. change (a_tk (mst s) y = task_registered s1 y).
+      rewrite (J_AgTk _ _ Jh y Y). unfold task_registered. cbn [s1 tasks cur set_tasks set_epoch].
       rewrite C. cbn [mem_z existsb orb]. rewrite orb_false_r. reflexivity.
     - right. destruct (J_SiTk _ _ Jh) as [S1 S2]. unfold SiTk, curl in *. cbn [s1 tasks cur set_tasks set_epoch].
       rewrite C in S1, S2. rewrite app_nil_r in S1, S2. split; assumption.
